@@ -44,7 +44,8 @@ def body():
         "this way and are counted, not replayed",
         "cg is judged only when the system matrix handed to it (weak form, or strong form M^-1 A) is symmetric positive definite, the premise of the property; "
         "the strong form is symmetric for DP0 on the unit cube (M a multiple of the identity), which realises dimension 3 for cg / strong form",
-        "SciPy's gmres uses legacy callbacks: one call per inner iteration with the relative preconditioned residual",
+        "whether a restarted or truncated Krylov iteration reaches the tolerance is a property of the method: info, iteration count, residual history and "
+        "solution are judged against SciPy run on the same discrete operator and right-hand side with the same settings; info = 0 must imply the tolerance",
     )
     quick = chk.tier == "quick"
     tmpcfg = os.path.join(common.SPEC, "_c15_%d.cfg" % os.getpid())
@@ -187,26 +188,41 @@ def body():
                         fail("residual_count", "len(residuals) = %d but count = %d" % (len(rec["residuals"]), rec["count"]))
                     if "count" in rec and (not isinstance(rec["count"], (int, np.integer)) or rec["count"] < 0):
                         fail("count", "iteration count %r" % (rec["count"],))
+                    # reference: SciPy on the same discrete operator and right-hand side with the same settings.  Whether a restarted or
+                    # truncated iteration converges is a property of the method, not of the wrapper: info, iteration count, recorded
+                    # residuals and solution must be those of the reference run, and info = 0 must mean the tolerance is met.
+                    import scipy.sparse.linalg as ssl
+                    from bempp_cl.api.assembly.blocked_operator import coefficients_from_grid_functions_list, projections_from_grid_functions_list
+
                     if c["strong"]:
-                        Sd = A.strong_form().to_dense()
-                        bvec = Sd.dot(truth)
-                        r = np.linalg.norm(Sd.dot(x) - bvec) / np.linalg.norm(bvec)
+                        A_op = A.strong_form()
+                        Sys = np.asarray(A_op.to_dense())
+                        b_vec = coefficients_from_grid_functions_list(b) if c["blocked"] else b.coefficients
                     else:
-                        r = np.linalg.norm(Wd.dot(x) - bvec_weak) / np.linalg.norm(bvec_weak)
-                    if maxiter is None:
-                        if info != 0:
-                            fail("info", "info = %s for tol %g without iteration limit (relative residual %.3g)" % (info, tol, r))
-                        elif r > tol * 1.0001:
-                            fail("tolerance", "info = 0 but the true relative residual is %.3g > tol %g" % (r, tol))
-                        if "residuals" in rec and rec["residuals"]:
-                            last = rec["residuals"][-1] / (np.linalg.norm(bvec if c["strong"] else bvec_weak) if c["solver"] == "cg" else 1.0)
-                            if last > tol * 1.0001:
-                                fail("residuals", "info = 0 but the last recorded residual %.3g exceeds tol %g" % (last, tol))
+                        A_op = A.weak_form()
+                        Sys = np.asarray(Wd)
+                        b_vec = projections_from_grid_functions_list(b, A.dual_to_range_spaces) if c["blocked"] else b.projections(A.dual_to_range)
+                    if np.abs(b_vec - Sys.dot(truth)).max() > 1e-10 * max(1e-12, np.abs(Sys.dot(truth)).max()):
+                        fail("rhs_layout", "the right-hand side vector of A*f is not (system matrix) . f")
+                        continue
+                    ref_res = []
+                    if c["solver"] == "gmres":
+                        xr, info_r = ssl.gmres(A_op, b_vec, rtol=tol, restart=restart, maxiter=maxiter, callback=lambda v: ref_res.append(float(np.linalg.norm(v))))
                     else:
-                        if info == 0 and r > tol * 1.0001:
-                            fail("tolerance", "info = 0 with maxiter=%d but the relative residual is %.3g" % (maxiter, r))
-                        if "count" in rec and c["solver"] == "cg" and rec["count"] > maxiter:
-                            fail("count", "cg ran %d iterations with maxiter=%d" % (rec["count"], maxiter))
+                        xr, info_r = ssl.cg(A_op, b_vec, rtol=tol, maxiter=maxiter, callback=lambda v: ref_res.append(float(np.linalg.norm(b_vec - A_op * v))))
+                    r = np.linalg.norm(Sys.dot(x) - b_vec) / np.linalg.norm(b_vec)
+                    if info != info_r:
+                        fail("info", "info = %s, SciPy on the same system with the same settings: %s (tol %g restart %s maxiter %s)" % (info, info_r, tol, restart, maxiter))
+                    if "count" in rec and rec["count"] != len(ref_res):
+                        fail("count", "iteration count %s, SciPy on the same system with the same settings ran %d iterations" % (rec["count"], len(ref_res)))
+                    if "residuals" in rec and (len(rec["residuals"]) != len(ref_res) or (ref_res and np.abs(np.array(rec["residuals"]) - np.array(ref_res)).max() > 1e-9 * max(ref_res))):
+                        fail("residuals", "recorded residuals differ from those of the iteration that was run (%d values, reference %d)" % (len(rec["residuals"]), len(ref_res)))
+                    if np.abs(x - xr.ravel()).max() > 1e-10 * max(1.0, np.abs(xr).max()):
+                        fail("solution", "solution differs from SciPy's on the same system by %.3g" % np.abs(x - xr.ravel()).max())
+                    if info == 0 and r > tol * 1.0001:
+                        fail("tolerance", "info = 0 but the true relative residual is %.3g > tol %g" % (r, tol))
+                    if info_r == 0:
+                        chk.cov["parts"].setdefault("converged_variants", {"n": 0})["n"] += 1
             except Exception as exc:
                 fail("exception", "%s: %s" % (type(exc).__name__, str(exc)[:200]))
         if len(chk.cov["samples"]) < 3:
